@@ -72,6 +72,9 @@ def gen_states(rng, n_steps, first, final):
 
 
 LOOKALIKE_NAMES = ["b", "b-docs", "ab", "b2"]
+# names that contain one another; names that differ in letter case only; names that differ in Unicode normalisation form
+# only (all distinct strings, distinct file names on this file system, distinct steps)
+LOOKALIKE_SETS = [LOOKALIKE_NAMES, LOOKALIKE_NAMES, ["build", "Build", "BUILD", "bUild"], ["caf\u00e9", "cafe\u0301", "CAF\u00c9", "cafe"]]
 
 
 def gen_chain(rng, root, n_steps=None, allow_gpg=False, fmt_mode="mixed", n_insp=None,
@@ -93,13 +96,14 @@ def gen_chain(rng, root, n_steps=None, allow_gpg=False, fmt_mode="mixed", n_insp
         first = {"src/a.c": b"int a;\n", "README": b"hi\n"}
     states = gen_states(rng, n_steps, first, final)
     lookalike = rng.random() < 0.3
+    look_names = rng.choice(LOOKALIKE_SETS)
     for i in range(n_steps):
         nf = rng.randrange(1, max_funcs + 1)
         keys = rng.sample(funcs_pool, nf)
         thr = min(rng.choice(thresholds), nf)
         # sometimes step names that contain one another ("b", "b-docs", "ab"): a name comparison that is not an exact
         # equality (prefix, substring, truncation) then confuses the steps
-        name = "%s%s" % (prefix, LOOKALIKE_NAMES[i % len(LOOKALIKE_NAMES)]) if lookalike else "%s%d" % (prefix, i)
+        name = "%s%s" % (prefix, look_names[i % len(look_names)]) if lookalike else "%s%d" % (prefix, i)
         links = []
         for k in keys:
             sub = None
@@ -371,6 +375,10 @@ def mutate_scalar(v, rng):
     if isinstance(v, int):
         return v + rng.choice([1, -1, 7])
     if isinstance(v, str):
+        import unicodedata
+        other_form = [f for f in (unicodedata.normalize("NFD", v), unicodedata.normalize("NFC", v)) if f != v]
+        if other_form and rng.random() < 0.5:
+            return other_form[0]       # the same text in the other Unicode normalisation form: another string
         if v and all(c in "0123456789abcdef" for c in v) and len(v) >= 8:
             i = rng.randrange(len(v))
             c = "0123456789abcdef"[(int(v[i], 16) + 1 + rng.randrange(15)) % 16]
@@ -502,11 +510,17 @@ def edit_signature(content, rng):
     if not sigs:
         return None
     i = rng.randrange(len(sigs))
-    kind = rng.choice(["value", "value", "keyid", "remove"])
+    kind = rng.choice(["value", "value", "keyid", "keyid_fragment", "remove"])
     if kind == "remove":
         del sigs[i]
     elif kind == "keyid":
         sigs[i]["keyid"] = mutate_scalar(sigs[i]["keyid"], rng)
+    elif kind == "keyid_fragment":
+        # a fragment of the key id (the short / long forms gpg prints, a prefix, one digit, nothing): another key id
+        kid = sigs[i]["keyid"]
+        sigs[i]["keyid"] = rng.choice([kid[-16:], kid[-8:], kid[:8], kid[10:20], kid[:1], "", kid.upper()])
+        if sigs[i]["keyid"] == kid:
+            sigs[i]["keyid"] = kid[:-1]
     else:
         field = "signature" if "signature" in sigs[i] else "sig"
         if "payload" in c:
@@ -516,6 +530,29 @@ def edit_signature(content, rng):
         else:
             sigs[i][field] = mutate_scalar(sigs[i][field], rng)
     return c, {"sig_edit": kind, "index": i}
+
+
+def shadow_signature(content, rng):
+    """Puts, before a signature, a second entry whose key id is a fragment of that signature's key id (or empty) and
+    whose value verifies for nobody. Signatures are looked up by exact key id: the genuine one still counts, in either
+    format. Returns (new content, description) or None."""
+    c = copy.deepcopy(content)
+    sigs = c.get("signatures")
+    if not sigs:
+        return None
+    i = rng.randrange(len(sigs))
+    kid = sigs[i]["keyid"]
+    sh = dict(sigs[i])
+    sh["keyid"] = rng.choice([kid[:8], kid[-16:], kid[:1], kid[4:12]] + ([""] if "payload" in c or "other_headers" not in sh else []))
+    field = "signature" if "signature" in sh else "sig"
+    if "payload" in c:
+        import base64
+        raw = bytearray(base64.b64decode(sh["sig"])); raw[0] ^= 1
+        sh["sig"] = base64.b64encode(bytes(raw)).decode()
+    else:
+        sh[field] = mutate_scalar(sh[field], rng)
+    sigs.insert(i, sh)
+    return c, {"shadow_before": i, "keyid": sh["keyid"]}
 
 
 def payload_canon_by_model(content):
